@@ -297,10 +297,12 @@ class PersistentReserveInReadFullStatus(PersistentReserveIn):
                 _str = f"{data['iscsi_name']},i,0x{data['iscsi_initiator_session_id']}"
             else:
                 _str = data["iscsi_name"]
-            result = bytearray(4 + _pad4_len(_str))
+            # the lengths are those of the UTF-8 encoded name, not of the string
+            _name = _str.encode("utf-8")
+            result = bytearray(4 + _pad4_len(_name))
             encode_dict(data, cls._transport_id_bits, result)
             result[2:4] = scsi_int_to_ba(len(result) - 4, 2)
-            result[4 : len(_str) + 4] = _str.encode("utf-8")
+            result[4 : len(_name) + 4] = _name
         elif _protocol_id == PROTOCOL_ID.SAS:
             result[4:12] = data["sas_address"][:8]
         elif _protocol_id == PROTOCOL_ID.SOP:
